@@ -79,11 +79,17 @@ Lemma apply_update_cc_coh w o out : Coh w -> Coh (apply_update_cc w o out).
 Proof.
   intros C. apply (coh_same w); [exact C|apply apply_update_cc_nodes|apply apply_update_cc_feed|apply apply_update_cc_ncache|apply apply_update_cc_synced].
 Qed.
+Lemma apply_create_cc_coh w o out : Coh w -> Coh (apply_create_cc w o out).
+Proof.
+  intros C. destruct (apply_create_cc_frame w o out) as (E1 & E2 & _ & _ & _ & _ & E4 & E6 & _).
+  apply (coh_same w); assumption.
+Qed.
 Lemma apply_effects_coh fx : forall w, Coh w -> Coh (apply_effects w fx).
 Proof.
-  induction fx as [|e fx IH]; intros w C; [exact C|]. destruct e as [nd cs po|? ?|? ?|o' out|? ?]; cbn [apply_effects]; try (apply IH; exact C).
+  induction fx as [|e fx IH]; intros w C; [exact C|]. destruct e as [nd cs po|? ?|? ?|o' out|o' out]; cbn [apply_effects]; try (apply IH; exact C).
   - apply IH. apply apply_patch_coh. exact C.
   - apply IH. apply apply_update_cc_coh. exact C.
+  - apply IH. apply apply_create_cc_coh. exact C.
 Qed.
 Lemma after_call_coh {A} w (r : res A) m' : Coh w -> Coh (after_call w r m').
 Proof. intros C. unfold after_call. destruct r; try (apply coh_crashed; exact C); apply (coh_same w); try reflexivity; exact C. Qed.
@@ -190,7 +196,7 @@ Section CohStep.
     - apply coh_crashed. exact C.
     - (* Construct *)
       destruct (w_ctl w); [exact C|].
-      destruct (construct po lab (w_ccs w) outs svc1 svc2 (map node_view (w_nodes w))) as [[m fx] pan]. cbn [fst].
+      destruct (construct po lab (with_default dp (w_ccs w)) outs svc1 svc2 (map node_view (w_nodes w))) as [[m fx] pan]. cbn [fst].
       apply apply_effects_coh. constructor; cbn; [exact (co_names w C)|discriminate|reflexivity].
     - (* StartInformers *)
       destruct (w_ctl w); [|exact C]. destruct (w_synced w); [exact C|]. cbn [fst].
@@ -318,11 +324,19 @@ Proof.
     (match goal with |- context [if ?b then _ else _] => destruct b end; apply cohc_push; [exact C|cbn; try reflexivity| exact C|cbn; reflexivity]).
 Qed.
 
+Lemma apply_create_cc_cohc w o out : CohC w -> CohC (apply_create_cc w o out).
+Proof.
+  intros C. unfold apply_create_cc. destruct out; try exact C;
+    (destruct (find_cc (o_name o) (w_ccs w)) as [cur|] eqn:Ec; [exact C|]);
+    (apply cohc_push; [exact C|cbn [replay_c]; unfold put_cc; cbn [with_rv o_name]; rewrite Ec; reflexivity]).
+Qed.
+
 Lemma apply_effects_cohc fx : forall w, CohC w -> CohC (apply_effects w fx).
 Proof.
-  induction fx as [|e fx IH]; intros w C; [exact C|]. destruct e as [nd cs po|? ?|? ?|o' out|? ?]; cbn [apply_effects]; try (apply IH; exact C).
+  induction fx as [|e fx IH]; intros w C; [exact C|]. destruct e as [nd cs po|? ?|? ?|o' out|o' out]; cbn [apply_effects]; try (apply IH; exact C).
   - apply IH. apply apply_patch_cohc. exact C.
   - apply IH. apply apply_update_cc_cohc. exact C.
+  - apply IH. apply apply_create_cc_cohc. exact C.
 Qed.
 Lemma after_call_cohc {A} w (r : res A) m' : CohC w -> CohC (after_call w r m').
 Proof. intros C. unfold after_call. destruct r; try apply cohc_crashed; apply (cohc_same w); try reflexivity; exact C. Qed.
@@ -415,7 +429,7 @@ Section CohCStep.
     - apply (cohc_same w); try reflexivity; exact C.
     - apply cohc_crashed.
     - destruct (w_ctl w); [exact C|].
-      destruct (construct po lab (w_ccs w) outs svc1 svc2 (map node_view (w_nodes w))) as [[m fx] pan]. cbn [fst].
+      destruct (construct po lab (with_default dp (w_ccs w)) outs svc1 svc2 (map node_view (w_nodes w))) as [[m fx] pan]. cbn [fst].
       apply apply_effects_cohc. constructor; cbn; [discriminate|reflexivity].
     - destruct (w_ctl w); [|exact C]. destruct (w_synced w); [exact C|]. cbn [fst].
       constructor; cbn; [intros _; reflexivity|discriminate].
